@@ -21,6 +21,7 @@ type config struct {
 	lastDeltas  []uint64 // further dt choices allowed only for the last step of a sequence
 	ops         []op     // per-account alphabet, simplest first
 	f10Depth    int      // abandoned-block variant is tried for steps up to this depth
+	rich        bool     // genesis in which account C holds 2^80 aer more
 	prefix      []step   // start state: these steps (all must be accepted) are executed first; depth counts from there
 }
 
@@ -66,6 +67,10 @@ func tierPasses(tier string) []config {
 				prefix: []step{{Dt: 1, Acct: 0, Op: op{opStake, 0}}, {Dt: 0, Acct: 2, Op: op{opStake, 0}}}},
 			{name: "core-d3-from-3-stakers", depth: 3, maxBlockOps: 2, deltas: []uint64{lockD}, lastDeltas: []uint64{lockD - 1}, ops: quickOps,
 				prefix: []step{{Dt: 1, Acct: 0, Op: op{opStake, 0}}, {Dt: 0, Acct: 1, Op: op{opStake, 1}}, {Dt: 1, Acct: 2, Op: op{opStake, 0}}}},
+			// amounts on both sides of a byte-length boundary of their stored encoding: C stakes exactly 2^80 aer
+			// (11 bytes), partial unstakes leave 10-byte amounts
+			{name: "core-d3-from-2^80-staker", depth: 3, maxBlockOps: 2, deltas: []uint64{lockD}, lastDeltas: []uint64{lockD - 1}, ops: quickOps, rich: true,
+				prefix: []step{{Dt: 1, Acct: 0, Op: op{opStake, 0}}, {Dt: 0, Acct: 2, Op: op{opStake, 3}}}},
 		}
 	}
 	if v := os.Getenv("VERIF_C15_PASS"); v != "" { // experiments only
@@ -102,6 +107,7 @@ type step struct {
 }
 
 type replayObj struct {
+	Rich  bool   `json:"rich,omitempty"`
 	Steps []step `json:"steps"`
 	Text  string `json:"text"`
 }
@@ -195,7 +201,7 @@ const (
 )
 
 func (e *explorer) violation(f *finding, path []step) {
-	e.ctx.Violation(f.sig, f.desc+" | after: "+pathText(path), replayObj{Steps: path, Text: pathText(path)})
+	e.ctx.Violation(f.sig, f.desc+" | after: "+pathText(path), replayObj{Rich: e.cfg.rich, Steps: path, Text: pathText(path)})
 }
 
 func (e *explorer) noteF8(path []step, first string) {
@@ -203,7 +209,7 @@ func (e *explorer) noteF8(path []step, first string) {
 	e.ctx.Count("f8_states_with_"+first+"_listed_first", 1)
 	if !e.f8 {
 		e.f8 = true
-		e.ctx.Violation("F8", f8Desc, replayObj{Steps: append([]step{}, path...), Text: pathText(path)})
+		e.ctx.Violation("F8", f8Desc, replayObj{Rich: e.cfg.rich, Steps: append([]step{}, path...), Text: pathText(path)})
 	}
 }
 
@@ -309,7 +315,7 @@ func (e *explorer) boundary(w *world, m *model, path []step, count bool) (*obs, 
 		e.ctx.Count("f15_states", 1)
 		if !e.f15 {
 			e.f15 = true
-			e.ctx.Violation("F15", f15Desc, replayObj{Steps: append([]step{}, path...), Text: pathText(path)})
+			e.ctx.Violation("F15", f15Desc, replayObj{Rich: e.cfg.rich, Steps: append([]step{}, path...), Text: pathText(path)})
 		}
 	}
 	if f != nil {
@@ -322,8 +328,8 @@ func (e *explorer) boundary(w *world, m *model, path []step, count bool) (*obs, 
 // root: the genesis boundary (or the boundary after the pass's prefix); the first step opens the
 // next block.
 func (e *explorer) root() {
-	w := newWorld()
-	m := newModel(initBal)
+	w := newWorld(e.cfg.rich)
+	m := newModel(initBal, e.cfg.rich)
 	var path []step
 	for i, st := range e.cfg.prefix {
 		if i == 0 || st.Dt > 0 {
@@ -472,7 +478,7 @@ func (e *explorer) expandClosed(w *world, m *model, path []step, left int, o *ob
 							if !e.f10 {
 								e.f10 = true
 								ab := append(append([]step{}, path...), step{Dt: dt, Acct: x, Op: op, Abandon: true})
-								e.ctx.Violation("F10", f10Desc, replayObj{Steps: ab, Text: pathText(ab)})
+								e.ctx.Violation("F10", f10Desc, replayObj{Rich: e.cfg.rich, Steps: ab, Text: pathText(ab)})
 							}
 						}
 						w = e.reopen(cs, m, []step{st})
@@ -502,9 +508,9 @@ func (e *explorer) skipShard(path []step) bool {
 
 // replayCase re-executes one recorded sequence with the full oracle.
 func replayCase(ctx *xplor.Ctx, r replayObj) {
-	e := newExplorer(ctx, config{})
-	w := newWorld()
-	m := newModel(initBal)
+	e := newExplorer(ctx, config{rich: r.Rich})
+	w := newWorld(r.Rich)
+	m := newModel(initBal, r.Rich)
 	for i, st := range r.Steps {
 		path := r.Steps[:i]
 		if i == 0 || st.Dt > 0 {
